@@ -5,6 +5,7 @@ import NfpmModel.Lemmas.PaxLemmas
 import NfpmModel.Lemmas.CpioLemmas
 import NfpmModel.Lemmas.RpmHdrLemmas
 import NfpmModel.Lemmas.PackageLemmas
+import NfpmModel.Lemmas.RpmFilesLemmas
 import NfpmModel.Digest
 import NfpmModel.Props.C05
 import NfpmModel.Props.C03
@@ -30,6 +31,11 @@ import NfpmModel.Reviewed.G8WriteTgz
           they – end in '/', and parents precede children (transfers C05.plan_parents_first).
     rpm   rpm_file_list_sorted: the header file list is sorted by name; the cpio payload is the
           sub-list of non-ghost entries in the same order.
+          rpm_file_list_reads_back / rpm_file_list_entries_ok / rpm_payload_follows_file_list /
+          rpm_plan_to_bytes_and_back: the sixteen per-file header entries rpmpack writes (DIRNAMES / DIRINDEXES /
+          BASENAMES and the FILE* columns) decode to one row per file with its full name, size, mode, time, digest,
+          link target, flags, owner and group; the cpio entries are the non-ghost rows in the same order with the
+          bodies the rows describe; composed with the container round trip from any plan.
     source_* the statement skeletons of the assembly functions regenerated from today's source are
           the reviewed ones.
 -/
@@ -818,6 +824,143 @@ theorem rpm_skips_implicit (now imt : Int) (c : Content) (h : c.type = T.implici
   split
   · rfl
   · simp [h]
+
+
+/-! ### rpm: the file list of the header and the payload -/
+
+/-- **the header's file list reads back**: from any main header in which the sixteen per-file entries rpmpack writes can
+    be looked up by tag, a reader that joins DIRNAMES[DIRINDEXES[i]] with BASENAMES[i] and decodes the FILE* columns gets
+    exactly one row per file, in order, with the file's full name, size (4096 for directories), 16-bit mode, time,
+    SHA-256 digest (regular files only), link target (symbolic links only), flags, owner and group -/
+theorem rpm_file_list_reads_back (fs : List RpmFiles.RFile) (hdr : List RpmHdr.Entry) (ok : RpmFiles.FilesOK fs)
+    (h : ∀ e ∈ RpmFiles.fileEntries fs, RpmFiles.lookupTag e.tag hdr = some e) :
+    RpmFiles.readFiles hdr = some (fs.map RpmFiles.rowOf) :=
+  RpmFiles.readFiles_of_lookup fs hdr ok h
+
+/-- the sixteen entries satisfy what the header writer's round trip (`rpm_header_roundtrip`) asks of an entry, and look
+    themselves up in their own list (their tags are distinct) -/
+theorem rpm_file_list_entries_ok (fs : List RpmFiles.RFile) (ok : RpmFiles.FilesOK fs) :
+    (∀ e ∈ RpmFiles.fileEntries fs, RpmHdr.EntryOK e)
+      ∧ (∀ e ∈ RpmFiles.fileEntries fs, RpmFiles.lookupTag e.tag (RpmFiles.fileEntries fs) = some e) :=
+  ⟨RpmFiles.fileEntries_ok fs ok, RpmFiles.lookup_fileEntries_self fs⟩
+
+/-- DIRNAMES lists every directory once -/
+theorem rpm_dirnames_distinct (fs : List RpmFiles.RFile) : (RpmFiles.dirnames fs).Nodup := RpmFiles.dirnames_nodup fs
+
+/-- **payload ↔ file list**: the cpio entries are the files whose flags are not exactly GHOST, in the order of the file
+    list, each under its full name and with the body it was given -/
+theorem rpm_payload_follows_file_list (ps : List (RpmFiles.RFile × Bytes)) :
+    (RpmFiles.payload ps).map (·.name) = ((ps.map (·.1)).filter (fun f => !RpmFiles.isGhost f)).map (·.name)
+      ∧ (RpmFiles.payload ps).map (·.body) = (ps.filter (fun p => !RpmFiles.isGhost p.1)).map (·.2) :=
+  ⟨RpmFiles.payload_names ps, RpmFiles.payload_bodies ps⟩
+
+/-- C03 on the rpm file list: what a row states about a file is a fact about the body shipped for it – FILESIZES the
+    body length (mod 2^32; 4096 for a directory), FILEDIGESTS the hex SHA-256 of the body for a regular file and empty
+    otherwise, FILELINKTOS the body for a symbolic link and empty otherwise – for every hash function -/
+theorem rpm_row_describes_shipped_body (hex256 : Bytes → Bytes) (f : RpmFiles.RFile) (body : Bytes) :
+    (RpmFiles.kindOf f.mode ≠ .dir → (RpmFiles.rowOf (RpmFiles.ofBody hex256 f body)).size = body.length % 4294967296)
+    ∧ (RpmFiles.kindOf f.mode = .reg → (RpmFiles.rowOf (RpmFiles.ofBody hex256 f body)).digest = hex256 body)
+    ∧ (RpmFiles.kindOf f.mode = .link → (RpmFiles.rowOf (RpmFiles.ofBody hex256 f body)).linkto = body
+          ∧ (RpmFiles.rowOf (RpmFiles.ofBody hex256 f body)).digest = [])
+    ∧ (RpmFiles.kindOf f.mode = .dir → (RpmFiles.rowOf (RpmFiles.ofBody hex256 f body)).size = 4096
+          ∧ (RpmFiles.rowOf (RpmFiles.ofBody hex256 f body)).digest = [] ∧ (RpmFiles.rowOf (RpmFiles.ofBody hex256 f body)).linkto = [])
+    ∧ (RpmFiles.rowOf (RpmFiles.ofBody hex256 f body)).name = f.name
+    ∧ (RpmFiles.rowOf (RpmFiles.ofBody hex256 f body)).flags = f.flags :=
+  RpmFiles.row_of_body hex256 f body
+
+/-- the rpmpack-level file of a planned member (C01's `rpmMember`) and the body nfpm hands over for it: the link
+    target for an entry of type symlink, nothing for a directory entry, the bytes read from the source otherwise -/
+def rpmFileOf (m : Member) : RpmFiles.RFile :=
+  { name := m.name, mode := m.mode, flags := m.flags, owner := m.uname, group := m.gname, mtime := m.mtime.toNat }
+
+def rpmBody (fs : Bytes → Bytes) (m : Member) : Bytes := if m.src = [] then m.link else fs m.src
+
+def rpmFiles (hex256 : Bytes → Bytes) (fs : Bytes → Bytes) (now imt : Int) (plan : List Content) : List (RpmFiles.RFile × Bytes) :=
+  (rpmMembers now imt plan).map (fun m => (RpmFiles.ofBody hex256 (rpmFileOf m) (rpmBody fs m), rpmBody fs m))
+
+/-- the two models agree on what a ghost is: a planned member is kept out of the payload (C01) exactly when its flags
+    are the GHOST flag alone (what rpmpack tests) -/
+theorem rpm_ghost_iff_not_in_payload (now imt : Int) (c : Content) (m : Member) (h : rpmMember now imt c = some m) :
+    RpmFiles.isGhost (rpmFileOf m) = !m.inPayload := by
+  unfold rpmMember at h
+  simp only [] at h
+  have flag : ∀ t : Bytes, (rpmFlags t = 64) = (t = T.ghost) := by
+    intro t
+    unfold rpmFlags
+    by_cases h1 : t = T.config
+    · subst h1; decide
+    by_cases h2 : t = T.configNoReplace
+    · subst h2; decide
+    by_cases h3 : t = T.configMissingOk
+    · subst h3; decide
+    by_cases h4 : t = T.ghost
+    · subst h4; decide
+    by_cases h5 : t = T.doc
+    · subst h5; decide
+    by_cases h6 : t = T.licence
+    · subst h6; decide
+    by_cases h7 : t = T.license
+    · subst h7; decide
+    by_cases h8 : t = T.readme
+    · subst h8; decide
+    simp only [h1, h2, h3, h4, h5, h6, h7, h8, if_false, Bool.or_self, Bool.false_eq_true, decide_false]
+    decide
+  by_cases hg : c.type = T.ghost
+  · have e0 : rpmFlags T.ghost = 64 := by decide
+    repeat' split at h
+    all_goals
+      cases h
+      try simp [RpmFiles.isGhost, rpmFileOf, RpmFiles.ghostFlag, e0, hg]
+  · have e2 : ¬ rpmFlags c.type = 64 := by rw [flag]; exact hg
+    repeat' split at h
+    all_goals
+      cases h
+      try simp [RpmFiles.isGhost, rpmFileOf, RpmFiles.ghostFlag, e2, hg]
+
+/-- **rpm, from the plan to the bytes and back** (C01, C03 and C04 composed): take any plan; the model of
+    rpm.createFilesInsideRPM and rpmpack gives the sorted file list with the bodies handed over; put the sixteen
+    per-file entries into any main header (with whatever other entries) and the non-ghost files into the payload.  Then
+    an independent reader of the package – lead, both header structures, decompressor, cpio reader – gets back a header
+    whose file list decodes to one row per planned member with its name, size, digest, link target and flags, and a
+    payload whose entries are the non-ghost members in file-list order, each carrying the body its row describes -/
+theorem rpm_plan_to_bytes_and_back (hex256 : Bytes → Bytes) (fs : Bytes → Bytes) (now imt : Int) (plan : List Content)
+    (nv : Bytes) (z : Bytes → Bytes) (u : Bytes → Option Bytes) (hz : Pkg.Inverts u z) (sig hdr : List RpmHdr.Entry)
+    (hs : RpmHdr.HeaderOK 62 sig) (hh : RpmHdr.HeaderOK 63 hdr) (h0 : (0 : UInt8) ∉ nv) (hl : nv.length ≤ 65)
+    (hfo : RpmFiles.FilesOK ((rpmFiles hex256 fs now imt plan).map (·.1)))
+    (hlk : ∀ e ∈ RpmFiles.fileEntries ((rpmFiles hex256 fs now imt plan).map (·.1)), RpmFiles.lookupTag e.tag hdr = some e)
+    (hp : ∀ e ∈ RpmFiles.payload (rpmFiles hex256 fs now imt plan), Cpio.EntryOK e)
+    (hn : 1 + (RpmFiles.payload (rpmFiles hex256 fs now imt plan)).length < 16 ^ 8) :
+    ∃ r, Pkg.readRpm u (Pkg.rpmFile nv z sig hdr (RpmFiles.payload (rpmFiles hex256 fs now imt plan))) = some r
+      ∧ RpmFiles.readFiles r.hdr = some (((rpmFiles hex256 fs now imt plan).map (·.1)).map RpmFiles.rowOf)
+      ∧ r.payload.map (fun e => (e.name, e.body))
+          = ((rpmFiles hex256 fs now imt plan).filter (fun p => !RpmFiles.isGhost p.1)).map (fun p => (p.1.name, p.2)) := by
+  have hrt := Pkg.readRpm_rpmFile nv z u hz sig hdr (RpmFiles.payload (rpmFiles hex256 fs now imt plan)) hs hh h0 hl hp hn
+  cases hr : Pkg.readRpm u (Pkg.rpmFile nv z sig hdr (RpmFiles.payload (rpmFiles hex256 fs now imt plan))) with
+  | none => rw [hr] at hrt; simp at hrt
+  | some r =>
+    rw [hr] at hrt
+    simp only [Option.map_some, Option.some.injEq, Prod.mk.injEq] at hrt
+    obtain ⟨_, _, hhdr, hpay⟩ := hrt
+    refine ⟨r, rfl, ?_, ?_⟩
+    · rw [hhdr]; exact RpmFiles.readFiles_of_lookup _ hdr hfo hlk
+    · rw [hpay, rpm_cpio_entries_in_order]
+      generalize rpmFiles hex256 fs now imt plan = ps
+      induction ps with
+      | nil => rfl
+      | cons p rest ih =>
+        unfold RpmFiles.payload at ih ⊢
+        cases hg : RpmFiles.isGhost p.1 <;> simp [hg, ih]
+
+/-- a two-file list with a shared directory, a ghost and a symbolic link, end to end at the level of names and rows
+    (kernel-evaluated) -/
+example :
+    let fs : List RpmFiles.RFile :=
+      [ { name := b!"/etc/app/app.conf", mode := 0o644, flags := 1, size := 3, digest := b!"ab" },
+        { name := b!"/etc/app/link", mode := 0o120777, size := 4, link := b!"app." },
+        { name := b!"/var/log/app.log", mode := 0o644, flags := 64 } ]
+    RpmFiles.dirnames fs = [b!"/etc/app/", b!"/var/log/"] ∧ RpmFiles.dirindexes fs = [0, 0, 1]
+      ∧ (RpmFiles.readFiles (RpmFiles.fileEntries fs)).map (·.map (·.name)) = some (fs.map (·.name)) := by
+  decide +kernel
 
 /-- the translator regenerated, on this run and from the working tree, every table this property is tied through
     (when an extraction fails the reviewed table stands in so that the model still compiles, and this stops checking) -/
